@@ -89,6 +89,16 @@ ProtoViol(mem, canary) ==
   \cup (IF MemKinds(mem, {6}) # {} \/ ~canary THEN {V1(<<"C05", "C18">>, "guard_intact")} ELSE {})
   \cup (IF Cfg.backend \in {"stack", "stackn"} /\ MemKinds(mem, {1, 2, 3}) # {} THEN {V1(<<"C11", "C19">>, "no_heap_alloc")} ELSE {})
 
+(* the user backend is built exactly once per vector, with the element type's layout: only the steps that create a vector   *)
+(* may call MemBuilder::build (clone -> 1, recreate -> 1, a clone_empty probe -> its own twin(s)); every other step: never    *)
+BuildViol(a, mem) ==
+  IF Cfg.backend # "fence" THEN {}
+  ELSE LET B == MemKinds(mem, {10})
+           want == IF a.op \in {"clone_vec", "recreate"} THEN 1 ELSE 0
+       IN IF a.op \in {"ce_probe", "cross_wrong", "place"} THEN {}
+          ELSE IF Cardinality(B) # want \/ (\E j \in B : mem[j][3] # Cfg.esz \/ mem[j][4] # Cfg.ealign)
+               THEN {V1(<<"C05">>, "built_once_with_layout")} ELSE {}
+
 (* a clone_empty_in probe builds a temporary vector on the requested backend: allocator traffic is expected exactly when *)
 (* that backend is the heap (or the source's own resizable backend)                                                    *)
 ProbeMem(a, mem) ==
@@ -309,6 +319,7 @@ Judge(stb, ev) ==
             ELSE IF x.lat \in {"panic", "liar"} THEN AdoptAfterPanic(stb, x, ev)
             ELSE AdoptAll([x.st EXCEPT !.leaked = stb.leaked], post, gone \ ToSet(ev.drops))
       capv == (IF diverged THEN {} ELSE CapViol(stb, x, [ev EXCEPT !.mem = ProbeMem(a, @)])) \cup ProtoViol(ProbeMem(a, ev.mem), post.canary)
+              \cup (IF ev.res = "ok" THEN BuildViol(a, ev.mem) ELSE {})
               \cup ProtoViol([j \in 1..Len(ev.mem) |-> IF ev.mem[j][1] \in {1, 2, 3} THEN <<0, 0, 0, 0, 0, 0>> ELSE ev.mem[j]], post.canary)
       tdv == IF diverged THEN {} ELSE TdViol(s2, ev, (IF IsForget(a) THEN <<"C07">> ELSE <<>>) \o (IF "dyn" \in DOMAIN ev THEN <<"C06">> ELSE <<>>))
   IN [st |-> s2, bad |-> diverged, viol |-> viol0 \cup AddProps(capv \cup TdMemViol(ev), Derived(stb, a)) \cup tdv]
